@@ -6,7 +6,9 @@
    loads {d, useenv, outs, r}          document d rendered as JSON, YAML and TOML and loaded
                                        (conf.LoadFrom*Bytes, conf.Load on files; with useenv:
                                        conf.Load(..., conf.UseEnv())).  outs = the distinct
-                                       answers, r = <<[f, via, o |-> index into outs]>>
+                                       answers, r = <<[f, via, o |-> index into outs]>>; a document
+                                       TOML cannot express (integer above maxint64) is loaded as
+                                       JSON and YAML only (mapt = [v |-> "na"] below)
    mapfmt {d, map, mapy, mapt}         mapping.UnmarshalJsonBytes / YamlBytes / TomlBytes on the
                                        three renderings of d
    plain {d, map, mapy, mapt, std}     the same, plus encoding/json on the JSON rendering   *)
@@ -19,8 +21,10 @@ E == Trace[l]
 IsEvent(e) == l <= Len(Trace) /\ E.e = e /\ l' = l + 1
 
 \* every logged result refers to one of the distinct answers, and each answer is used
+\* and the document went through exactly the formats that can express it
 WellFormed == /\ \A i \in DOMAIN E.r : E.r[i].o \in DOMAIN E.outs
               /\ \A j \in DOMAIN E.outs : \E i \in DOMAIN E.r : E.r[i].o = j
+              /\ {E.r[i].f : i \in DOMAIN E.r} = Formats(E.d)
 
 TReset == IsEvent("reset") /\ Reset(E.ty, E.env)
 TLoads == IsEvent("loads") /\ WellFormed /\ Loads(E.d, E.useenv, E.outs)
@@ -51,6 +55,14 @@ KF_NestedContainerCase ==
   /\ HasBadChain(ty)
   /\ \A i \in DOMAIN E.outs : E.outs[i].v \in {"ok", "err"}
   /\ Skip
+\* conf.buildFieldsInfo describes a map below another map or a slice by the field table of
+\* the struct its elements reach: a user-chosen key spelled like one of those fields is
+\* taken for the field (lower-cased, the entry below it not canonicalised)
+KF_DeepMapFieldKey ==
+  /\ Open("KF_DeepMapFieldKey") /\ IsEvent("loads") /\ WellFormed
+  /\ DeepKeyClash(ty, Effective(E.d, E.useenv))
+  /\ \A i \in DOMAIN E.outs : E.outs[i].v \in {"ok", "err"}
+  /\ Skip
 \* a field key spelled twice: encoding/json folds case and takes the last spelling,
 \* mapping.UnmarshalJsonBytes takes the exact one
 KF_PlainKeyCase ==
@@ -66,7 +78,7 @@ KF_PlainMissingMap ==
 TInit == Init /\ l = 1
 TNext == TReset \/ TLoads \/ TMapFmt \/ TPlain
          \/ KF_CaseDupKeys \/ KF_PtrContainer \/ KF_NestedContainerCase
-         \/ KF_PlainKeyCase \/ KF_PlainMissingMap
+         \/ KF_PlainKeyCase \/ KF_PlainMissingMap \/ KF_DeepMapFieldKey
 TSpec == TInit /\ [][TNext]_tvars
 
 HW == HighWater(l)
